@@ -11,6 +11,7 @@ import (
 	"os"
 	"os/exec"
 	"path/filepath"
+	"reflect"
 	"runtime"
 	"sort"
 	"strconv"
@@ -291,7 +292,7 @@ func execOpKeep(op pOp, r *rInput, keep *func() string) (res string) {
 	case "dsl2proto":
 		m, err := transformer.TransformDSLToProto(r.dsl)
 		if err != nil {
-			return "error: " + err.Error()
+			return errRes("error: ", err, kept)
 		}
 		out := "model: " + detBytes(m)
 		if scribbleResults {
@@ -302,14 +303,14 @@ func execOpKeep(op pOp, r *rInput, keep *func() string) (res string) {
 	case "dsl2json":
 		s, err := transformer.TransformDSLToJSON(r.dsl)
 		if err != nil {
-			return "error: " + err.Error()
+			return errRes("error: ", err, kept)
 		}
 		kept(func() string { return "json: " + s })
 		return "json: " + s
 	case "moddsl2proto":
 		m, ext, err := transformer.TransformModularDSLToProto(r.dsl)
 		if err != nil {
-			return "error: " + err.Error()
+			return errRes("error: ", err, kept)
 		}
 		var ks []string
 		for k, td := range ext {
@@ -330,25 +331,25 @@ func execOpKeep(op pOp, r *rInput, keep *func() string) (res string) {
 	case "json2dsl":
 		s, err := transformer.TransformJSONStringToDSL(r.json, opts...)
 		if err != nil {
-			return "error: " + err.Error()
+			return errRes("error: ", err, kept)
 		}
 		kept(func() string { return "dsl: " + *s })
 		return "dsl: " + *s
 	case "proto2dsl":
 		s, err := transformer.TransformJSONProtoToDSL(r.pm, opts...)
 		if err != nil {
-			return "error: " + err.Error()
+			return errRes("error: ", err, kept)
 		}
 		kept(func() string { return "dsl: " + s })
 		return "dsl: " + s
 	case "plaingraph":
 		g, err := graph.NewAuthorizationModelGraph(r.pm)
 		if err != nil {
-			return "error: " + err.Error()
+			return errRes("error: ", err, kept)
 		}
 		rev, err := g.Reversed()
 		if err != nil {
-			return "error: reversed: " + err.Error()
+			return errRes("error: reversed: ", err, kept)
 		}
 		if scribbleResults {
 			defer scribblePlain(g)
@@ -436,7 +437,7 @@ func execOpKeep(op pOp, r *rInput, keep *func() string) (res string) {
 		sb.WriteString(g.GetDOT())
 		rev, err := g.Reversed()
 		if err != nil {
-			return "error: reversed: " + err.Error()
+			return errRes("error: reversed: ", err, kept)
 		}
 		sb.WriteString(rev.GetDOT())
 		for _, a := range r.labels {
@@ -478,7 +479,7 @@ func execOpKeep(op pOp, r *rInput, keep *func() string) (res string) {
 	case "loadjson":
 		m, err := transformer.LoadJSONStringToProto(r.json)
 		if err != nil {
-			return "error: " + err.Error()
+			return errRes("error: ", err, kept)
 		}
 		kept(func() string { return "model: " + detBytes(m) })
 		return "model: " + detBytes(m)
@@ -542,7 +543,7 @@ func execOpKeep(op pOp, r *rInput, keep *func() string) (res string) {
 	case "modfile":
 		mf, err := transformer.TransformModFile(r.dsl)
 		if err != nil {
-			return "error: " + err.Error()
+			return errRes("error: ", err, kept)
 		}
 		// (no encoding/json here: its encoder pool would synchronise the tasks)
 		var sb strings.Builder
@@ -562,6 +563,85 @@ func execOpKeep(op pOp, r *rInput, keep *func() string) (res string) {
 		return sb.String()
 	}
 	return "unknown op " + op.Kind
+}
+
+// errRes renders an error result and keeps the error object itself: looked at
+// again after everything else has run, it must still carry the same message and
+// the same details (file, line, column ... of every error in its tree). An error
+// value is a result like any other; a library that hands out one shared error
+// object and re-positions it for every call changes results the caller kept.
+func errRes(prefix string, err error, kept func(func() string)) string {
+	out := prefix + err.Error()
+	base := errDetail(err)
+	kept(func() string {
+		if now := errDetail(err); now != base {
+			return "error object kept by the caller changed: " + diffAt(base, now)
+		}
+		return prefix + err.Error()
+	})
+	return out
+}
+
+// errDetail renders the tree of an error: type, message and the exported
+// scalar fields (one level of nested structs) of every node.
+func errDetail(err error) string {
+	var sb strings.Builder
+	seen := 0
+	var walk func(e error)
+	walk = func(e error) {
+		if e == nil || seen > 200 {
+			return
+		}
+		seen++
+		sb.WriteString(fmt.Sprintf("%T{%s", e, e.Error()))
+		v := reflect.ValueOf(e)
+		for v.Kind() == reflect.Ptr && !v.IsNil() {
+			v = v.Elem()
+		}
+		var fields func(v reflect.Value, depth int)
+		fields = func(v reflect.Value, depth int) {
+			if v.Kind() != reflect.Struct {
+				return
+			}
+			for i := 0; i < v.NumField(); i++ {
+				f := v.Type().Field(i)
+				if !f.IsExported() {
+					continue
+				}
+				fv := v.Field(i)
+				switch fv.Kind() {
+				case reflect.String, reflect.Int, reflect.Int32, reflect.Int64, reflect.Bool, reflect.Uint32, reflect.Uint64:
+					sb.WriteString(fmt.Sprintf(" %s=%v", f.Name, fv.Interface()))
+				case reflect.Struct:
+					if depth < 2 {
+						sb.WriteString(" " + f.Name + "{")
+						fields(fv, depth+1)
+						sb.WriteString("}")
+					}
+				case reflect.Slice:
+					if fv.Type().Elem().Implements(reflect.TypeOf((*error)(nil)).Elem()) {
+						for j := 0; j < fv.Len(); j++ {
+							if ce, ok := fv.Index(j).Interface().(error); ok {
+								walk(ce)
+							}
+						}
+					}
+				}
+			}
+		}
+		fields(v, 0)
+		switch u := e.(type) {
+		case interface{ Unwrap() error }:
+			walk(u.Unwrap())
+		case interface{ Unwrap() []error }:
+			for _, ce := range u.Unwrap() {
+				walk(ce)
+			}
+		}
+		sb.WriteString("}")
+	}
+	walk(err)
+	return sb.String()
 }
 
 type opResult struct {
@@ -846,6 +926,8 @@ var modFileTexts = []string{
 	"schema: '1.1'\ncontents:\n  - core.fga\n",
 	"schema: '1.2'\ncontents:\n  - ../core.fga\n  - /abs.fga\n  - a%2Fb.fga\n",
 	"schema: '1.2'\n",
+	"contents:\n  - core.fga\n  - wiki/a.fga\nschema: '1.0'\n",
+	"# a comment first\n\nschema:   '0.9'\ncontents:\n  - core.fga\n",
 	"contents:\n  - x.fga\n",
 	"schema: '1.2'\ncontents: core.fga\n",
 	"schema: [1.2]\ncontents:\n  - 1\n  - x.txt\n",
@@ -1112,6 +1194,14 @@ func genPureWorkload(r *rng) *wlPure {
 			}
 			if r.chance(35) {
 				attributeModel(r, m)
+			}
+			if r.chance(12) {
+				// a tupleset that also allows a type which lacks the computed relation:
+				// the plain graph skips that parent, the weighted graph rejects the
+				// model - neither may touch the model on the way
+				if bad := addRelationlessParent(r, m); bad != nil {
+					m = bad
+				}
 			}
 			wl.Inputs = append(wl.Inputs, pInput{Kind: "model", Model: m})
 			baseDSL = append(baseDSL, m.toDSL())
